@@ -30,8 +30,15 @@ WS = [
 ]
 
 
+# prose alphabet for parameter descriptions: words the default/type machinery reacts to, in announcement and non-announcement forms
+PROSE = [
+    "the value", " ", ".", ",", "\n", "Defaults to 5", "defaults", "Defaults", "default is", "(default: 3)", "defaults to", "`", "```", "None",
+    " of ", " or ", "List[str]", "(", ")", ":", "whether", "integer", "'a'", '"',
+]
+
+
 def _bounds(tier):
-    return dict(n_tokens=3 if tier == "quick" else 4, doctrans_rounds=3)
+    return dict(n_tokens=3 if tier == "quick" else 4, doctrans_rounds=3, n_prose_tokens=2 if tier == "quick" else 3)
 
 
 PROGRAMS = [
@@ -62,6 +69,9 @@ def cases(tier, seed):
     kinds = A.sigma_int()
     for (hk, h), (dk, d) in itertools.product(WS, WS):
         yield dict(kind="emit", header=h, pdoc=d)
+    # (d) prose token strings as parameter descriptions through every emitter and the source-level parsers
+    for i in range(len(PROSE)):
+        yield dict(kind="prose_block", prefix=[i], maxlen=b["n_prose_tokens"])
     # (c) doctrans repeated
     for name, src in PROGRAMS:
         for style in ("rest", "google", "numpydoc"):
@@ -148,6 +158,30 @@ def run(case):
             ir2["_internal"] = {"original_doc_str": case["header"] + "\n" + case["pdoc"]}
             v, steps, o = _check_call("docstring_emit_original", size, cdd.docstring.emit.docstring, ir2, docstring_format=style, indent_level=indent, emit_original_whitespace=True)
             note(v, steps, size, o, case)
+    elif case["kind"] in ("prose_block", "prose_string"):
+        from mc import formats as F
+
+        if "string" in case:
+            strings = [case["string"]]
+        else:
+            pre = "".join(PROSE[i] for i in case["prefix"])
+            strings = [pre + "".join(t) for k in range(0, case["maxlen"] - len(case["prefix"]) + 1) for t in itertools.product(PROSE, repeat=k)]
+        for s in strings:
+            n += 1
+            sub = dict(kind="prose_string", string=s)
+            size = len(s) + 60
+            for pk, pdict in (("int_default", dict(doc=s, typ="int", default=5)), ("str_plain", dict(doc=s, typ="str"))):
+                ir = A.mk_ir([("alpha", pdict), ("beta", dict(doc="the other", typ="str", default="b"))], A.RETURNS[1][1])
+                for fmt in ("docstring", "class", "function", "argparse"):
+                    for style in (("rest", "google", "numpydoc") if fmt == "docstring" else ("rest",)):
+                        for edd in (False, True):
+                            def emit_and_reparse(fmt=fmt, style=style, edd=edd, ir=ir):
+                                node = F.emit_ast(fmt, ir, style=style, emit_default_doc=edd)
+                                text = node if isinstance(node, str) else F.render(node)
+                                return F.parse_text(fmt, text)
+
+                            v, steps, o = _check_call("emit_reparse_%s" % fmt, size, emit_and_reparse)
+                            note(v, steps, size, o, sub)
     elif case["kind"] == "doctrans":
         import cdd.compound.doctrans
 
@@ -188,10 +222,12 @@ def describe(tier):
     return dict(
         rule="(a) every docstring of <= {n_tokens} tokens over the {k}-token docstring alphabet through parse_docstring (emit_default_doc "
         "True/False) and parse_docstring_into_header_args_footer; (b) {w}x{w} (header, description) pairs from the whitespace alphabet x 6 "
-        "parameter kinds x 3 styles x indent 0..2 through docstring.emit (with and without an original docstring); (c) {p} generated modules "
+        "parameter kinds x 3 styles x indent 0..2 through docstring.emit (with and without an original docstring); (d) every parameter description of <= {n_prose_tokens} "
+        "tokens over the {pr}-token prose alphabet (default announcements in recognised and unrecognised forms, type trigger words, quotes, brackets) x 2 parameter kinds "
+        "through emit+re-parse of docstring (3 styles), class, function and argparse with emit_default_doc on/off; (c) {p} generated modules "
         "x 3 styles x annotations on/off through doctrans applied 1, 2, 3 times; each call under the step budget {c0}+{c1}*len(input) line "
-        "events; a case is one input string/interface/module".format(k=len(SIGMA_DOC), w=len(WS), p=len(PROGRAMS), c0=C0, c1=C1, **b),
-        bounds=dict(sigma_doc=SIGMA_DOC, whitespace_alphabet=[w[1] for w in WS], programs=[p[0] for p in PROGRAMS], c0=C0, c1=C1, **b),
+        "events; a case is one input string/interface/module".format(k=len(SIGMA_DOC), w=len(WS), p=len(PROGRAMS), c0=C0, c1=C1, pr=len(PROSE), **b),
+        bounds=dict(sigma_doc=SIGMA_DOC, prose_alphabet=PROSE, whitespace_alphabet=[w[1] for w in WS], programs=[p[0] for p in PROGRAMS], c0=C0, c1=C1, **b),
         exhaustive=True,
         assumptions=["termination is measured in line events of the cdd package (deterministic); loops inside C code (re, str methods) are not counted",
                      "'proportional' is decided against the fixed envelope C0 + C1*n; measured maxima are reported as max_steps / max_steps_per_char_x100"],
